@@ -496,6 +496,9 @@ def oracle_text(op, obs, ph):
     if cmp_part in ('no-such-target', 'no-such-symbol'):
         return None
     tramp = op.startswith('c14.tramp')
+    if tramp and int(kv.get('stray_dist', '0')):
+        return (f'{kv["stray_dist"]} byte(s) beyond the placeholder\'s own body changed (body = distance to the next symbol {kv["trampdist"]}; '
+                f'goom bounded the write by its own scan, {kv["trampsize"]} bytes)')
     if not tramp and int(op.split()[2]) < 13:
         return f'a function of {op.split()[2]} bytes (too short to hold the 13-byte jump) was patched instead of refused'
     entry, ta, tsz = int(kv['entry'], 16), int(kv['tramp'], 16), int(kv['trampsize'])
@@ -523,7 +526,7 @@ def oracle_text(op, obs, ph):
     if not ph[1] or not ph[2]:
         return 'no mprotect traced for Apply/Unpatch'
     if tramp:
-        return oracle_calls(ph[0], ta, tsz, 'placeholder write', cover=False)   # the written length is goom's business (C03); it must stay inside the body
+        return oracle_calls(ph[0], ta, min(tsz, int(kv.get('trampdist', tsz))), 'placeholder write', cover=False)   # the written length is goom's business (C03); it must stay inside the body
     return None
 
 
@@ -887,7 +890,16 @@ def replay(body):
     ops = body.get('ops', [])
     rc = 0
     scratch = [o for o in ops if o.startswith('c14.write') or o.startswith('c14.ps ')]
-    text = [o for o in ops if o not in scratch]
+    hist = [o for o in ops if o.startswith('c14.hist ')]
+    text = [o for o in ops if o not in scratch and o not in hist]
+    if hist:
+        bins = build_probes()
+        head, fs = run_text_survey(bins)
+        impl, model, raw, why, _ = execute_hist(hist, bins, fs, tag='c14-replay.hist')
+        for i, op in enumerate(hist):
+            print(f'{op[:300]}\n  impl : {impl[i]}\n  raw  : {(raw[i] or "")[-600:]}\n  model: {model[i] if model else None}\n  oracle: {why[i] or "ok"}')
+            if why[i] or (model and impl[i] != model[i]):
+                rc = 1
     if scratch:
         impl, model, raw, calls, base, _ = execute(scratch, tag='c14-replay')
         for i, op in enumerate(scratch):
